@@ -6,6 +6,7 @@ package main
 import (
 	"fmt"
 	"os"
+	"sort"
 	"strings"
 )
 
@@ -71,6 +72,44 @@ type watchCase struct {
 }
 
 // sequences after which the watched key looks exactly as before — and was nevertheless modified
+// the life of a watch: what ends it (EXEC whatever its outcome, DISCARD inside MULTI, UNWATCH) and what
+// does not (refused commands, a stray DISCARD or EXEC, more WATCHes, SELECT); then the key is
+// modified (or not) and a fresh transaction shows whether the watch was still there
+func (g *Gen) watchLife(n int) []Op {
+	var ops []Op
+	start, i := n, 0
+	_ = i
+	events := [][][]string{
+		{{"MULTI"}, {"nosuchcommand"}, {"EXEC"}}, {{"MULTI"}, {"GET"}, {"SET", "kq", "1"}, {"EXEC"}}, {{"MULTI"}, {"SET", "kq", "1"}, {"DISCARD"}},
+		{{"DISCARD"}}, {{"EXEC"}}, {{"UNWATCH"}}, {{"MULTI"}, {"SET", "kq", "1"}, {"EXEC"}}, {{"MULTI"}, {"MULTI"}, {"EXEC"}}, {{"MULTI"}, {"WATCH", "k2"}, {"EXEC"}},
+		{{"nosuchcommand"}}, {{"WATCH"}}, {{"WATCH", "k2"}}, {{"SELECT", "1"}, {"SELECT", "0"}}, {{"PING"}}, {{"MULTI"}, {"EXEC"}}, {{"MULTI"}, {"DISCARD"}},
+		{{"DISCARD", "x"}}, {{"UNWATCH", "x"}}, {{"MULTI"}, {"nosuchcommand"}, {"DISCARD"}}, {{"MULTI"}, {"EXEC", "x"}, {"EXEC"}}, {{"GET"}}, {{"MULTI", "x"}},
+	}
+	ev := events[start%len(events)]
+	ops = append(ops, mkOp(1, "SET", "k", "hello"))
+	if g.chance(0.3) {
+		ops = append(ops, mkOp(1, "DEL", "k")) // a key that does not exist can be watched too
+	}
+	ops = append(ops, mkOp(1, "WATCH", "k"))
+	if g.chance(0.25) {
+		// ... and so can a transaction that was aborted by a modification
+		ops = append(ops, mkOp(2, "APPEND", "k", "y"))
+	}
+	for _, a := range ev {
+		ops = append(ops, mkOp(1, a...))
+	}
+	switch (start / len(events)) % 3 {
+	case 0:
+		ops = append(ops, mkOp(2, "APPEND", "k", "x"))
+	case 1:
+		ops = append(ops, mkOp(1, "APPEND", "k", "x"))
+	}
+	ops = append(ops, mkOp(1, "MULTI"), mkOp(1, "SET", "kq", "final"), mkOp(1, "EXEC"), mkOp(1, "GET", "kq"), mkOp(2, "GET", "k"))
+	// and once more: every EXEC ends all watches
+	ops = append(ops, mkOp(2, "APPEND", "k", "z"), mkOp(1, "MULTI"), mkOp(1, "SET", "kq", "again"), mkOp(1, "EXEC"), mkOp(1, "GET", "kq"))
+	return ops
+}
+
 func c10Pairs() [][][]string {
 	return [][][]string{
 		{{"SET", "k", "hello"}, {"RENAME", "k", "t"}, {"RENAME", "t", "k"}},
@@ -226,6 +265,9 @@ func init() {
 		}
 		return runHistories(cfg, res, n, func(i int) History {
 			var ops []Op
+			if i%5 == 4 {
+				return History{Ops: g.watchLife(i / 5)}
+			}
 			ops = append(ops, g.seedOps(1)...)
 			ops = append(ops, mkOp(1, "SET", "kstr", "abc"))
 			if i%5 < 2 {
@@ -344,6 +386,9 @@ func init() {
 				}
 				ops = append(ops, mkOp(1, "EXEC"), mkOp(1, "GET", "kq"), mkOp(2, "TYPE", "k"), mkOp(2, "TTL", "k"))
 				return History{Ops: ops}
+			}
+			if i%10 == 4 {
+				return History{Ops: g.watchLife(start + i/10)}
 			}
 			if i%5 < 3 {
 				// systematic: one write of the table, alone between WATCH and EXEC, by either connection
@@ -483,10 +528,15 @@ func init() {
 				for j := 0; j < 2+g.r.Intn(3); j++ {
 					ops = append(ops, mkOp(c, "SELECT", g.pick("0", "1", "2", "3", "15", "16")))
 					for x := 0; x < 1+g.r.Intn(2); x++ {
-						ops = append(ops, [](Op){mkOp(c, "SET", g.key(), fmt.Sprintf("tx%d", j)), mkOp(c, "DBSIZE"), mkOp(c, "RPUSH", g.key(), "e"), mkOp(c, "KEYS", "*"), mkOp(c, "DEL", g.key())}[g.r.Intn(5)])
+						ops = append(ops, [](Op){mkOp(c, "SET", g.key(), fmt.Sprintf("tx%d", j)), mkOp(c, "DBSIZE"), mkOp(c, "RPUSH", g.key(), "e"), mkOp(c, "KEYS", "*"), mkOp(c, "DEL", g.key()),
+							mkOp(c, "FLUSHALL"), mkOp(c, "FLUSHDB"), mkOp(c, "SET", g.key(), "after"), mkOp(c, "DBSIZE")}[g.r.Intn(9)])
 					}
 				}
 				ops = append(ops, mkOp(c, g.pick("EXEC", "EXEC", "EXEC", "DISCARD")), mkOp(c, "DBSIZE"), mkOp(c, "KEYS", "*"))
+				for _, db := range []string{"0", "1", "2"} {
+					o := 1 + c%nc
+					ops = append(ops, mkOp(o, "SELECT", db), mkOp(o, "DBSIZE"))
+				}
 				ops = append(ops, mkOp(c, "SELECT", "3"))
 				ops = append(ops, g.observeAll(c)...)
 				ops = append(ops, mkOp(c, "SELECT", "15"))
@@ -579,13 +629,21 @@ func init() {
 	// deadline passed but the object still stored (short deadline followed by a sleep)
 	streams["C07"] = func(cfg runCfg, res *Result) error {
 		g := newGen(cfg.seed)
-		n := 60
+		n := 150
 		if cfg.tier == "thorough" {
-			n = 1200
+			n = 1500
 		}
+		// every command of the catalogue is the first command after the deadlines have passed in at least two
+		// histories of every run (the random part below does not reach each command in each phase)
+		var names []string
+		for name := range catalog {
+			names = append(names, name)
+		}
+		sort.Strings(names)
 		return runHistories(cfg, res, n, func(i int) History {
 			var ops []Op
 			ops = append(ops, g.seedOps(1)...)
+			sweep := names[i%len(names)]
 			// give some keys a short deadline in various ways, then let it pass
 			short := 0
 			for _, k := range g.keys {
@@ -610,13 +668,17 @@ func init() {
 				if g.chance(0.25) {
 					o = mkOp(1, catalog[g.pick("ttl", "persist", "expire", "pexpire", "getex", "set", "append", "rename", "copy", "keys", "randomkey", "scan", "del", "type")](g)...)
 				}
-				if g.chance(0.15) {
+				if g.chance(0.25) {
 					// the iteration commands and the filters of SCAN see the same keyspace as everybody else
 					k := g.key()
 					o = [](Op){mkOp(1, "SCAN", "0", "COUNT", "1000", "TYPE", g.pick("string", "list", "hash", "set")), mkOp(1, "SCAN", "0", "MATCH", "k*", "COUNT", "1000"),
 						mkOp(1, "SCAN", "0", "COUNT", "1000", "MATCH", "*", "TYPE", g.pick("string", "list", "hash", "set")), mkOp(1, "HSCAN", k, "0", "COUNT", "1000"), mkOp(1, "SSCAN", k, "0", "COUNT", "1000"),
 						mkOp(1, "HSCAN", k, "0", "MATCH", "*"), mkOp(1, "SSCAN", k, "0"), mkOp(1, "HRANDFIELD", k, "5"), mkOp(1, "SRANDMEMBER", k, "5"), mkOp(1, "HGETALL", k), mkOp(1, "SMEMBERS", k),
-						mkOp(1, "SINTERCARD", "1", k), mkOp(1, "HSTRLEN", k, "f1"), mkOp(1, "LPOS", k, "a"), mkOp(1, "SMISMEMBER", k, "a", "b"), mkOp(1, "HMGET", k, "f1", "f2")}[g.r.Intn(16)]
+						mkOp(1, "SCAN", "0", "MATCH", g.pick("k[a-c]", "k[a-d]", "k[b-d]*", "[j-k]?", "k[^a-b]"), "COUNT", "1000"), mkOp(1, "HSCAN", k, "0", "MATCH", g.pick("f[1-3]", "f[1-4]", "f[2-4]", "[e-f]*"), "COUNT", "1000"),
+						mkOp(1, "SSCAN", k, "0", "MATCH", g.pick("[a-c]", "[a-d]", "[b-d]", "[^a-c]"), "COUNT", "1000"), mkOp(1, "KEYS", g.pick("k[a-c]", "k[a-d]", "k[b-d]")),
+						mkOp(1, "SETBIT", k, g.pick("3", "100", "1000"), "1"), mkOp(1, "BITFIELD", k, "SET", "u8", g.pick("0", "64", "800"), "7"), mkOp(1, "BITFIELD", k, "INCRBY", "u8", g.pick("8", "400"), "1"),
+						mkOp(1, "SETRANGE", k, g.pick("0", "50"), "zz"), mkOp(1, "APPEND", k, "tail"), mkOp(1, "LSET", k, "0", "z"), mkOp(1, "HSET", k, "f1", "w"), mkOp(1, "SADD", k, "zz"), mkOp(1, "INCRBYFLOAT", k, "1.5"),
+						mkOp(1, "SINTERCARD", "1", k), mkOp(1, "HSTRLEN", k, "f1"), mkOp(1, "LPOS", k, "a"), mkOp(1, "SMISMEMBER", k, "a", "b"), mkOp(1, "HMGET", k, "f1", "f2")}[g.r.Intn(29)]
 				}
 				if g.chance(0.12) {
 					// SORT reads its source, its weights and its GET targets through the same expiry
@@ -633,10 +695,13 @@ func init() {
 						o = mkOp(1, "LCS", a, b, g.pick("LEN", "IDX"))
 					}
 				}
+				if first {
+					o = mkOp(1, catalog[sweep](g)...)
+				}
 				if first && short > 0 {
 					o.SleepMs = 80
-					first = false
 				}
+				first = false
 				ops = append(ops, o)
 			}
 			ops = append(ops, g.observeAll(1)...)
